@@ -4,7 +4,8 @@ from common import *
 
 SCRATCH = os.environ.get("VERIF_SCRATCH", f"/tmp/verif-replay-{PROP}-{os.getpid()}")
 _built = {}
-PROM_BINS = {"c18", "c07", "c08"}      # replay programs that need the Prometheus exporter (own crate: hyper/tokio are slow to build)
+PROM_BINS = {"c18", "c07", "c08"}
+TRACE_BINS = {"c17"}      # replay programs that need the Prometheus exporter (own crate: hyper/tokio are slow to build)
 
 
 def plan_text(scenario, violated, threads, sched_rows, inputs):
@@ -30,13 +31,14 @@ def build(binname):
         log(r.stdout + r.stderr)
         _built[binname] = None
         return None
-    for sub in ("crate", "crate-prom"):
+    for sub in ("crate", "crate-prom", "crate-trace"):
         cdir = os.path.join(root, sub)
         if os.path.exists(cdir):
             shutil.rmtree(cdir)
         shutil.copytree(os.path.join(VERIF, "replay", sub), cdir, ignore=shutil.ignore_patterns("target", "Cargo.lock"))
     prom = binname in PROM_BINS
-    cdir = os.path.join(root, "crate-prom" if prom else "crate")
+    trace = binname in TRACE_BINS
+    cdir = os.path.join(root, "crate-prom" if prom else ("crate-trace" if trace else "crate"))
     # the scenario harness is linked into the replay programs too (same Rust source as the MIR that was executed)
     hdir = os.path.join(root, "mirharness")
     if os.path.exists(hdir):
@@ -50,7 +52,7 @@ def build(binname):
     env = dict(os.environ)
     env["RUSTFLAGS"] = f"--cfg {GUARD}"
     env["CARGO_NET_OFFLINE"] = "true"
-    tdir = os.path.join(WORK, "replay-e3-prom" if prom else "replay-e3")
+    tdir = os.path.join(WORK, "replay-e3-prom" if prom else ("replay-e3-trace" if trace else "replay-e3"))
     r = subprocess.run(["cargo", "+1.74.0", "build", "--offline", "--bin", binname, "--target-dir", tdir],
                        cwd=cdir, capture_output=True, text=True, env=env)
     if r.returncode != 0:
